@@ -155,6 +155,15 @@ def run_repr(ctx, case):
             ctx.require(K2.shape[0] == rank, f'{name}: number of terms = Choi rank', f'{K2.shape[0]} vs {rank}')
     c4 = ch.hf_channel_to_choi_op(lambda x: apply_ref(K, x), din)
     ctx.close(np.asarray(c4).reshape(din * dout, din * dout), choi_ref, tol, 'hf_channel_to_choi_op')
+    # callables that hand back their argument or a view of it (identity channel; a channel applied through views) are channels like any other
+    ident = np.einsum('ia,jb->iajb', np.eye(din), np.eye(din)).reshape(din * din, din * din)
+    ctx.close(np.asarray(ch.hf_channel_to_choi_op(lambda x: x, din)).reshape(din * din, din * din), ident, tol, 'hf_channel_to_choi_op of the identity channel given as `lambda rho: rho`')
+    Kid = ch.hf_channel_to_kraus_op(lambda x: x, din)
+    ctx.close(apply_ref(Kid, rho), rho, 1e-7, 'hf_channel_to_kraus_op of the identity channel given as `lambda rho: rho`')
+    if din == dout and K.shape[0] == 1:
+        V = K[0]
+        cV = ch.hf_channel_to_choi_op(lambda x: (V @ x.T.conj().T) @ V.conj().T, din)
+        ctx.close(np.asarray(cV).reshape(din * dout, din * dout), choi_ref, tol, 'hf_channel_to_choi_op (callable working on views of its argument)')
     # Bloch map
     if din >= 2 and dout >= 2:
         A, b = ch.choi_op_to_bloch_map(choi_ref.reshape(din, dout, din, dout))
@@ -288,7 +297,19 @@ def run_contr(ctx, case):
         ctx.close(float(u.get_von_neumann_entropy(torch.tensor(m))), S, 1e-9, 'torch entropy = numpy entropy')
     Sb = u.get_von_neumann_entropy(np.stack([rho, sig]))
     ctx.close(Sb, [-xlogx(np.linalg.eigvalsh(rho)), -xlogx(np.linalg.eigvalsh(sig))], 1e-9, 'batched entropy')
-    # relative entropy (full-rank, well conditioned sigma only)
+    # relative entropy for EVERY pair: non-negative (Klein), and when rho has weight w outside the support of sigma (true value +infinity) the
+    # reported regularised value is large: at least 10 w - log d (any regularisation floor below e^-10 gives this)
+    for a_, b_, d_ in ((rho, sig, din), (o_rho, o_sig, dout), (sig, rho, din)):
+        Rab = float(u.get_relative_entropy(a_, b_))
+        ctx.require(math.isfinite(Rab) and Rab >= -1e-9, 'relative entropy is finite and non-negative for every pair of states', f'{Rab}')
+        wb, vb = np.linalg.eigh(b_)
+        ker = vb[:, wb < 1e-12]
+        if ker.shape[1] > 0:
+            w_out = float(np.real(np.trace(ker.conj().T @ a_ @ ker)))
+            if w_out > 1e-3:
+                ctx.require(Rab >= 10 * w_out - math.log(d_) - 1e-9, 'relative entropy is large when rho has weight outside the support of sigma', f'S={Rab} weight outside={w_out}')
+                ctx.label('rho not supported on sigma')
+    # exact value (full-rank, well conditioned sigma only)
     ws = np.linalg.eigvalsh(sig)
     if ws.min() > 1e-6 * ws.max() and ws.min() > 1e-9:
         R0 = float(u.get_relative_entropy(rho, sig))
@@ -309,5 +330,5 @@ def run_contr(ctx, case):
 SUBCHECKS = [
     SubCheck('representations', run_repr, strategy=_strat_chan, examples=(1200, 6000), shards=(3, 16), floors={'din!=dout': 0.3, 'bloch': 0.3}),
     SubCheck('builtin_noise', run_noise, strategy=_strat_noise, examples=(600, 3000), floors={'endpoint': 0.05}),
-    SubCheck('contractive', run_contr, strategy=_strat_contr, examples=(1200, 6000), shards=(3, 16), floors={'relative entropy': 0.15, 'vector branch': 0.2}),
+    SubCheck('contractive', run_contr, strategy=_strat_contr, examples=(1200, 6000), shards=(3, 16), floors={'relative entropy': 0.15, 'vector branch': 0.2, 'rho not supported on sigma': 0.1}),
 ]
